@@ -67,6 +67,25 @@ UNIT = {
         'impls as reference substitution, derived DeepClone field-wise, resource pruning keeps what the operations name',
  'timeout': 900,
  'rlimit': 30,
+ 'native': {'tests': [
+    {'name': 'import_shared_resources_cycles_rotation', 'code': 'import_bounded.rs', 'place': 'pdf/tests/verif_import_bounded.rs',
+     'fn': 'PageBuilder::clone_page', 'props': ['C20'], 'tier': 'quick', 'timeout': 900,
+     'bound': 'ONE 13-object source document: pages A, B share one indirect font (indirect /Widths), one form XObject (whose resources name the same '
+              'font) and one ExtGState (whose /Font names the same font); page C has /Rotate 90, own /MediaBox /CropBox /TrimBox, refers to itself through '
+              '/PieceInfo and to an annotation whose /P points back at it (cycles through /Parent, /Annots, /P); x all 15 non-empty ordered selections of '
+              'the three pages, each imported through ONE Importer, built (CatalogBuilder, PdfBuilder::build), saved and reloaded',
+     'contract': 'per imported page: media/crop/trim box and rotation equal; operation sequence equal; every resource the operations name is isomorphic to '
+                 'the source entry under ONE injective map old reference -> new reference for the whole document (same keys, lengths, stream bytes; the '
+                 'same source object is the same new object wherever it is reached from; no source object has more than one copy, inline or indirect); '
+                 '/PieceInfo likewise (the copy of the page names itself, the annotation points back at it, its parent lists it); every reference resolves '
+                 'in the new document. ExtGState entries (held by value in Resources) are compared by content + inner references: see '
+                 'findings/extgstate_copied_per_page.md'},
+    # candidate finding, NOT enabled (fails on /repo HEAD ebb87a5; enable together with the known_findings.txt line proposed in
+    # findings/extgstate_copied_per_page.md if the maintainer accepts it):
+    # {'name': 'import_shared_extgstate_identity', 'code': 'findings/extgstate_copied_per_page_repro.rs', 'place': 'pdf/tests/verif_extgstate_shared.rs',
+    #  'fn': 'PageBuilder::clone_page', 'props': ['C20'], 'tier': 'quick', 'bound': 'one document, two pages sharing one indirect ExtGState',
+    #  'contract': 'the shared graphics state is ONE indirect object of the new document, named by both pages'},
+ ]},
  'items': {
   # ---------------------------------------------------------------- data types
   'struct PlainRef': {'kind': 'decl', 'file': M, 'header': r'^pub struct PlainRef$', 'attrs': ['#[derive(Clone, Copy)]']},
@@ -106,6 +125,12 @@ UNIT = {
       'maybe_clone(*self, c, final(cloner).memo())',
       extra=[{'rule': 'R7', 'regex': r'cloner\.clone_shared\(old\)\.map\(MaybeRef::Direct\)', 'replace': 'hoist_map_direct(cloner.clone_shared(old))'},
              {'rule': 'R7', 'regex': r'cloner\.clone_rcref\(old\)\.map\(MaybeRef::Indirect\)', 'replace': 'hoist_map_indirect(cloner.clone_rcref(old))'}]),
+  # the real `Primitive::resolve` (primitive.rs): a reference is looked up in the SOURCE document, anything else is itself. Under contract so
+  # that a DeepClone impl that resolves before cloning (bypassing the cloner's memo) is read, not skipped
+  'Primitive::resolve': {'kind': 'fn', 'file': P, 'container': r'^impl Primitive$', 'name': 'resolve', 'props': PR, 'ret': 'res',
+      'ensures': [('resolve_is_source_lookup', 'res == (match self { Primitive::Reference(id) => src_obj(id), _ => Ok::<Primitive, PdfError>(self) })')],
+      'rewrites': [{'where': 'sig', 'rule': 'R2', 'regex': r'\bfn resolve\(', 'replace': 'fn resolve<R__: Resolve>('},
+                   {'where': 'sig', 'rule': 'R2', 'regex': r'&impl Resolve', 'replace': '&R__'}]},
   'Lazy::deep_clone': inherent(M, r'^impl<T: Object> DeepClone for Lazy<T>$',
       'prim_clone(self.primitive, c.primitive, final(cloner).memo()) && c.cache.peek() is None'),
 
@@ -279,6 +304,9 @@ WORLD_B = {
           {'rule': 'R7', 'find': 'AnySync::new_without_size(new.clone())', 'replace': 'AnySync::new_without_size(hoist_shared_clone(&new))'}]},
   'Importer::stream_data': {'kind': 'fn', 'file': B, 'container': r"^impl<'a, R: Resolve, U> Resolve for Importer<'a, R, U>$", 'name': 'stream_data', 'props': PR,
       'ensures': [('forwards_to_source', 'r == src_stream(id, range)')],
+      'rewrites': [{'where': 'sig', 'rule': 'R2', 'regex': r'\Afn ', 'replace': 'pub fn '}]},
+  'Importer::resolve': {'kind': 'fn', 'file': B, 'container': r"^impl<'a, R: Resolve, U> Resolve for Importer<'a, R, U>$", 'name': 'resolve', 'props': PR, 'ret': 'res',
+      'ensures': [('forwards_to_source', 'res == src_obj(r)')],
       'rewrites': [{'where': 'sig', 'rule': 'R2', 'regex': r'\Afn ', 'replace': 'pub fn '}]},
 }
 UNIT['items'].update(WORLD_B)
